@@ -505,9 +505,12 @@ fn gen_case(rng: &mut Rng, thorough: bool) -> Case {
             _ => 2 + rng.below(62) as u32,
         };
         let mut stored = if comp == 1 {
-            match rng.below(10) {
+            match rng.below(12) {
                 0 => make_zip(&[], true),
                 1 => make_zip(&[("a.xml", &text[..]), ("b.xml", b"<x/>")], rng.bool()),
+                // several members sharing ONE name (a name-keyed view of the archive sees one file)
+                10 => make_zip(&[("device.xml", &text[..]), ("device.xml", b"<other/>")], rng.bool()),
+                11 => make_zip(&[("device.xml", b"<other/>"), ("device.xml", &text[..]), ("device.xml", b"<third/>")], rng.bool()),
                 2 => text.clone(), // flagged zip but plain text
                 3 if text.len() < 3000 => make_zip_lying_size(&text),
                 _ => make_zip(&[("device.xml", &text[..])], !rng.chance(1, 4)),
